@@ -175,6 +175,9 @@ func (s *Sim) OnTx(m *Model, t *TxTrace) {
 			r.Fail("C15", "forced-failure-ignored", "tx %d (%v) reported success although its call failed after the handler", t.Index, stepOf(t))
 		}
 		r.Probe("forced_failure_after_handler")
+		if op := t.P.Step.Op; op == "unregcand" || op == "whitenode" {
+			r.Probe("forced_failure_of_delete_only_call")
+		}
 		s.onEpoch(m, t)
 		return
 	}
